@@ -4,7 +4,7 @@ Require Import Cirbo.Model.Base Cirbo.Model.Gate Cirbo.Model.Den Cirbo.Model.Cir
         Cirbo.Model.Connect Cirbo.Model.History Cirbo.Model.WF.
 Require Import Cirbo.Proofs.DictFacts Cirbo.Proofs.WFBase Cirbo.Proofs.WFSimple Cirbo.Proofs.WFEmplace
         Cirbo.Proofs.WFRemove Cirbo.Proofs.WFReplaceInputs Cirbo.Proofs.WFRename Cirbo.Proofs.WFRename2
-        Cirbo.Proofs.WFCopy Cirbo.Proofs.WFBench Cirbo.Proofs.WFReplaceSub.
+        Cirbo.Proofs.WFCopy Cirbo.Proofs.WFBench Cirbo.Proofs.WFReplaceSub Cirbo.Proofs.WFConnect2 Cirbo.Proofs.WFSound.
 
 (* the invariant carried along a history: WF plus "INPUT gates have no operands" *)
 Definition Inv (c : circuit) : Prop := WF c /\ inputs_nullary c.
@@ -30,15 +30,21 @@ Definition op_ok (c : circuit) (o : op) : Prop :=
   | _ => True
   end.
 
+(* every constructor of `op` has its preservation lemma: kept as a definition so that a
+   constructor added to History.op later is not silently counted as proved *)
 Definition covered (o : op) : bool :=
   match o with
   | OpEmplace _ _ _ | OpAddInputs _ | OpRemoveGate _
   | OpMarkOutput _ | OpSetOutputs _ | OpSetInputs _ | OpOrderInputs _ | OpOrderOutputs _
   | OpReplaceInputs _ _ | OpMakeBlock _ _ _ _ | OpMakeBlockFromSlice _ _ _
   | OpDeleteBlock _ | OpRemoveBlock _ | OpRename _ _ | OpCopy | OpBlockIntoCircuit _
-  | OpIntoBench _ | OpReplaceSubcircuit _ _ _ _ => true
-  | _ => false
+  | OpIntoBench _ | OpReplaceSubcircuit _ _ _ _
+  | OpConnect _ _ _ _ _ _ | OpConnectLeft _ _ _ _ | OpConnectRight _ _ _ _ | OpConnectInputs _ _ _
+  | OpExtend _ _ _ _ _ _ | OpAddCircuit _ _ _ => true
   end.
+
+Lemma covered_all o : covered o = true.
+Proof. destruct o; reflexivity. Qed.
 
 (* the simple mutators do not touch the gate map *)
 Lemma simple_gates c o c' :
@@ -91,6 +97,12 @@ Proof.
   - split; [eapply delete_block_wf; eassumption|].
     eapply nullary_same_gates; [|eassumption]. eapply (simple_gates c (OpDeleteBlock name)); [exact I|exact H].
   - split; [eapply remove_block_wf|eapply remove_block_nullary]; eassumption.
+  - destruct Hok as [Wo No]. eapply connect_circuit_inv; [exact W|exact N|exact Wo|exact No|exact H].
+  - destruct Hok as [Wo No]. eapply connect_left_inv; [exact W|exact N|exact Wo|exact No|exact H].
+  - destruct Hok as [Wo No]. eapply connect_right_inv; [exact W|exact N|exact Wo|exact No|exact H].
+  - destruct Hok as [Wo No]. eapply connect_inputs_inv; [exact W|exact N|exact Wo|exact No|exact H].
+  - destruct Hok as [Wo No]. eapply extend_circuit_inv; [exact W|exact N|exact Wo|exact No|exact H].
+  - destruct Hok as [Wo No]. eapply add_circuit_inv; [exact W|exact N|exact Wo|exact No|exact H].
   - destruct Hok as [Wo No]. eapply replace_subcircuit_inv; [exact W|exact N|exact Wo|exact No|exact H].
   - eapply into_bench_inv_le; eassumption.
   - eapply copy_circuit_wf; eassumption.
@@ -113,5 +125,38 @@ Proof.
   eapply step_inv_partial; eassumption.
 Qed.
 
+Theorem step_inv c o c' : Inv c -> op_ok c o -> step c o = Ok c' -> Inv c'.
+Proof. apply step_inv_partial, covered_all. Qed.
+
+Theorem history_inv os : forall c c',
+  Inv c -> history_ok c os -> foldM step os c = Ok c' -> Inv c'.
+Proof.
+  intros c c'; apply history_inv_partial. apply forallb_forall; intros o _; apply covered_all.
+Qed.
+
 Lemma Inv_empty : Inv empty_circuit.
 Proof. split; [apply WF_empty|]. intros l g H; discriminate. Qed.
+
+(* executable version of the companion invariant, for concrete examples *)
+Definition nullaryb (c : circuit) : bool :=
+  forallb (fun kg : label * gate =>
+             negb (gtype_beq (gtyp (snd kg)) INPUT) || match gops (snd kg) with [] => true | _ => false end)
+          (gates c).
+
+Lemma nullaryb_sound c : nullaryb c = true -> inputs_nullary c.
+Proof.
+  unfold nullaryb; rewrite forallb_forall. intros H l g Hg Ht.
+  specialize (H (l, g) (dget_In _ _ _ Hg)); simpl in H. rewrite Ht in H; simpl in H.
+  destruct (gops g); [reflexivity|discriminate].
+Qed.
+
+Lemma Inv_b c : wfb c && nullaryb c = true -> Inv c.
+Proof.
+  intros H; apply andb_true_iff in H; destruct H as [H1 H2].
+  split; [apply WFSound.wfb_sound, H1|apply nullaryb_sound, H2].
+Qed.
+
+(* the statement of the property for circuits built from scratch *)
+Theorem history_wf_from_empty os c' :
+  history_ok empty_circuit os -> foldM step os empty_circuit = Ok c' -> WF c'.
+Proof. intros Hok H. eapply (history_inv os empty_circuit c' Inv_empty Hok H). Qed.
